@@ -91,7 +91,9 @@ PROPS["C14"] = {
     "suite": "C14",
     "stats": generic_stats(_c14_nontrivial,
         "sessions = one Flame (method, chain position, handler func type, optional custom ReturnHandler, optional pre-write) "
-        "serving 1..n requests whose handler returns the listed values; distinct by the op lines; non-trivial = at least one "
+        "serving 1..n requests whose handler returns the listed values, plus `retseq` sessions: one Flame, each request one chain "
+        "of up to 8 handlers that return values and/or Map a ReturnHandler into the request or app scope mid-chain (exhaustive "
+        "to depth 4/5 over a 9-step alphabet, then random); distinct by the op lines; non-trivial = at least one "
         "request got a status line out through the return handler"),
     "known_match": no_known,
     "trusted_base": COMMON_TRUST + [
